@@ -207,8 +207,19 @@ def _tmp_base():
     return "/dev/shm" if os.path.isdir("/dev/shm") and os.access("/dev/shm", os.W_OK) else None
 
 
-def _names(d, nc):
-    return [os.path.join(d, "c%d.pkl" % c) for c in range(nc)]
+def _names(d, case):
+    """file name of every cache id of the case: ids < nb are plain names; template t unformatted is
+    nb + t (V+1), formatted with the value v it is nb + t (V+1) + v + 1 (Model/C18Ctx.lean: nameId)"""
+    nc = case["nc"]
+    nb, V, tkeys = case.get("nb", nc), case.get("V", 0), case.get("tkeys", [])
+    names = []
+    for c in range(nc):
+        if c < nb:
+            names.append(os.path.join(d, "c%d.pkl" % c))
+        else:
+            t, r = divmod(c - nb, V + 1)
+            names.append(os.path.join(d, ("t%d_{{k%d}}.pkl" % (t, tkeys[t])) if r == 0 else ("t%d_%d.pkl" % (t, r - 1))))
+    return names
 
 
 def _read_final(path, vk):
@@ -239,19 +250,29 @@ def _bits(names):
     return b
 
 
-def _mk_els(specs, j0, names, vk, log):
+def _mk_els(specs, j0, names, vk, log, caches=None, tmpl=None):
+    """the real elements of a list of specs; map elements are numbered over the elements that carry data"""
     import lena.flow
-    els = []
-    for j, e in enumerate(specs):
+    import lena.meta
+    els, j = [], j0
+    for e in specs:
         if e["k"] == "map":
-            els.append(_Map(j0 + j, e, vk, log))
+            els.append(_Map(j, e, vk, log))
+        elif e["k"] == "setctx":
+            els.append(lena.meta.SetContext("k%d" % e["key"], e["v"]))
+            continue
         else:
-            els.append(lena.flow.Cache(names[e["c"]], recompute=bool(e["rc"]), method=e.get("method", "cPickle"),
-                                       protocol=e.get("proto", 2)))
+            name = names[e["c"]] if e["k"] == "cache" else names[tmpl["nb"] + e["t"] * (tmpl["V"] + 1)]
+            el = lena.flow.Cache(name, recompute=bool(e["rc"]), method=e.get("method", "cPickle"),
+                                 protocol=e.get("proto", 2))
+            els.append(el)
+            if caches is not None:
+                caches.append(el)
+        j += 1
     return els
 
 
-def _build(op, names, vk, log):
+def _build(op, names, vk, log, caches=None, tmpl=None):
     """build the pipeline of a run with the real lena classes; returns the generator to consume"""
     import lena.core
     import lena.flow
@@ -261,13 +282,7 @@ def _build(op, names, vk, log):
         branch = _mk_els(op["branch"], len(outer), names, vk, log)
         sp = lena.core.Split([lena.core.Sequence(*branch)], bufsize=op["bufsize"])
         return lena.core.Source(src, *(outer + [sp]))()
-    els = []
-    for j, e in enumerate(op["els"]):
-        if e["k"] == "map":
-            els.append(_Map(j, e, vk, log))
-        else:
-            els.append(lena.flow.Cache(names[e["c"]], recompute=bool(e["rc"]), method=e.get("method", "cPickle"),
-                                       protocol=e.get("proto", 2)))
+    els = _mk_els(op["els"], 0, names, vk, log, caches, tmpl)
     mode = op.get("mode", "source")
     if mode in ("bare_hoist", "bare_meta"):
         el = els[0]
@@ -294,11 +309,16 @@ def _build(op, names, vk, log):
     return seq.run(src())
 
 
-def _run_op(op, names, vk, leaked):
+def _run_op(op, names, vk, leaked, tmpl=None):
     log = []
     ob = {"out": [], "snaps": []}
+    caches = []
     try:
-        it = _build(op, names, vk, log)
+        it = _build(op, names, vk, log, caches, tmpl)
+        if op["op"] == "run":
+            # the file every Cache element of the pipeline uses (a private attribute read by the harness)
+            ob["ids"] = [names.index(c._filename) if c._filename in names else "?" + os.path.basename(c._filename)
+                         for c in caches]
     except Exception as e:      # building a pipeline runs no generator body: nothing of ours can raise here
         ob["end"] = "build:" + exc_name(e)
         ob["ev"] = log
@@ -346,13 +366,17 @@ def run_impl(case):
     _prepare()
     nc, vk = case["nc"], case.get("vk", "int")
     d = tempfile.mkdtemp(prefix="c18-", dir=_tmp_base())
-    names = _names(d, nc)
+    names = _names(d, case)
+    tmpl = {"nb": case.get("nb", nc), "V": case.get("V", 0)}
     leaked = []
     obs = []
     try:
         for op in case["hist"]:
             if op["op"] in ("run", "splitrun"):
-                ob = _run_op(op, names, vk, leaked)
+                ob = _run_op(op, names, vk, leaked, tmpl)
+            elif op["op"] == "repr":
+                import lena.flow
+                ob = {"exists": "[cache exists]" in repr(lena.flow.Cache(names[op["c"]], recompute=bool(op.get("rc"))))}
             elif op["op"] == "drop":
                 import lena.flow
                 ob = {}
@@ -427,6 +451,21 @@ def split_patched():
     return _SPLIT_RULE[0]
 
 
+def _resolved(op, ids):
+    """the pipeline of a run with every templated cache replaced by the cache id it was observed (or predicted) to use,
+    and without the SetContext elements"""
+    out, i = [], 0
+    for e in op["els"]:
+        if e["k"] == "setctx":
+            continue
+        if e["k"] == "tcache":
+            e = {"k": "cache", "c": ids[i], "rc": e["rc"]}
+        if e["k"] == "cache":
+            i += 1
+        out.append(e)
+    return out
+
+
 def model_requests(case):
     if any(op["op"] == "splitrun" for op in case["hist"]):
         return [dict(case, split_patched=split_patched())]
@@ -447,7 +486,7 @@ def compare(case, res, replies):
             return (f"op {i} ({op['op']}): impl and model differ in {keys}: impl "
                     + jdump({k: a.get(k) for k in keys})[:300] + " model " + jdump({k: b.get(k) for k in keys})[:300])
         if op["op"] == "run":
-            flow = _pipe_flow(finals, op["src"], op["els"])[0]
+            flow = _pipe_flow(finals, op["src"], _resolved(op, b["ids"]))[0]
             if ref != {"vals": flow[0], "exc": flow[1]}:
                 return f"op {i}: Lean pipeFlow {ref} differs from the Python reference {flow}"
         finals = [f["final"] for f in b["fs"]]
@@ -464,14 +503,17 @@ def oracle(case, res):
         where = f"op {i} {_show_op(op)}"
         maybe_dropped = set()
         if op["op"] == "run":
-            (vals, exc), inputs, replay = _pipe_flow(stored, op["src"], op["els"])
+            if any(type(c) is not int for c in ob.get("ids", [])):
+                return f"cache-name: {where}: a Cache uses a file outside the names of the case: {ob.get('ids')}"
+            els = _resolved(op, ob.get("ids", []))
+            (vals, exc), inputs, replay = _pipe_flow(stored, op["src"], els)
             k = op["take"]
             if k is not None and k <= len(vals):
                 exp_out, exp_end = vals[:k], "stopped"
             else:
                 exp_out, exp_end = vals, ("exhausted" if exc is None else exc)
             if replay is not None:
-                c = op["els"][replay]["c"]
+                c = els[replay]["c"]
                 for ev in ob["ev"]:
                     if ev[0] in ("s", "s!", "s$"):
                         return (f"upstream-pulled: {where}: cache {c} is filled, but the run pulled from the source "
@@ -530,6 +572,11 @@ def oracle(case, res):
                     for c, fl in o_inputs.items():
                         if ob["fs"][c]["final"] == list(fl[0]):
                             stored[c] = list(fl[0])
+        elif op["op"] == "repr":
+            # the representation says whether the cache will be replayed
+            if ob["exists"] != (stored[op["c"]] is not None and not op.get("rc")):
+                return (f"repr-differs: {where}: repr says 'cache exists' = {ob['exists']}, the cache holds "
+                        f"{stored[op['c']]}")
         elif op["op"] == "drop":
             if stored[op["c"]] is not None and ob["r"] != "ok":
                 return f"drop-failed: {where}: drop_cache() of an existing cache raised {ob['r']}"
@@ -547,9 +594,18 @@ def oracle(case, res):
     return None
 
 
+def _show_el(e):
+    if e["k"] == "map":
+        return "M%d%s" % (e["a"], "" if e["raise"] is None else "!%d" % e["raise"])
+    if e["k"] == "setctx":
+        return "Set(k%d=%d)" % (e["key"], e["v"])
+    if e["k"] == "tcache":
+        return "C(t%d_{k%d})%s" % (e["t"], e["key"], "r" if e["rc"] else "")
+    return "C%d%s" % (e["c"], "r" if e["rc"] else "")
+
+
 def _show_els(els):
-    return "".join(("M%d%s" % (e["a"], "" if e["raise"] is None else "!%d" % e["raise"])) if e["k"] == "map"
-                   else ("C%d%s" % (e["c"], "r" if e["rc"] else "")) for e in els)
+    return "".join(_show_el(e) for e in els)
 
 
 def _show_op(op):
@@ -559,8 +615,7 @@ def _show_op(op):
                 + f" take={op['take']} {op.get('fin', 'close')}]")
     if op["op"] != "run":
         return jdump(op)
-    els = "".join(("M%d%s" % (e["a"], "" if e["raise"] is None else "!%d" % e["raise"])) if e["k"] == "map"
-                  else ("C%d%s" % (e["c"], "r" if e["rc"] else "")) for e in op["els"])
+    els = _show_els(op["els"])
     return (f"run[{op.get('mode', 'source')} src={op['src']['vals']}"
             + ("" if op["src"]["raise"] is None else f"!{op['src']['raise']}")
             + f" els={els} take={op['take']} {op.get('fin', 'close')}]")
@@ -628,7 +683,7 @@ def shrink(case):
             for j in range(len(op["els"])):
                 yield rep(els=op["els"][:j] + op["els"][j + 1:])
         for j, e in enumerate(op["els"]):
-            if e["k"] == "map" and e["raise"] is not None:
+            if e["k"] == "map" and e.get("raise") is not None:
                 yield rep(els=op["els"][:j] + [dict(e, **{"raise": None})] + op["els"][j + 1:])
         if op["take"] is not None and op["take"] > 0:
             yield rep(take=op["take"] - 1)
@@ -869,6 +924,10 @@ def gen_cases(ctx):
     made = 0
     for i, c in enumerate(_enumerated(quick)):
         c["vk"] = _VKS[i % 4]
+        for op in c["hist"]:            # pickle options rotate over the enumerated cases
+            for e in op.get("els", []) + op.get("outer", []) + op.get("branch", []):
+                if e["k"] in ("cache", "tcache"):
+                    e["proto"], e["method"] = (i // 4) % 6, ("pickle", "cPickle")[(i // 24) % 2]
         yield c
         for _ in range(per):
             if made < n_random:
@@ -883,9 +942,40 @@ def gen_cases(ctx):
         yield r
 
 
+def SET(k, v):
+    return {"k": "setctx", "key": k, "v": v}
+
+
+def TC(t, k, rc=False):
+    return {"k": "tcache", "t": t, "key": k, "rc": rc}
+
+
+REPR = lambda c, rc=False: {"op": "repr", "c": c, "rc": rc}
+
+
 def _family_x():
-    """placeholder for the option / static-context families (filled below)"""
-    return []
+    """file names from the static context (Cache._set_context), repr, and a cache name that is a directory:
+    one plain cache (id 0) and two templates over the keys k0, k1 with values 0, 1 (ids 1..6)"""
+    base = {"nc": 7, "nb": 1, "V": 2, "tkeys": [0, 1], "fam": "X"}
+    def pipes(v, w):
+        sv = [SET(0, v)] if v is not None else []
+        sw = [SET(1, w)] if w is not None else []
+        yield sv + [M(1), TC(0, 0), M(2)]
+        yield [TC(0, 0)] + sv + [M(1), TC(0, 0, True)]                 # the same template before and after the SetContext
+        yield sv + sw + [TC(0, 0), M(1), TC(1, 1)]
+        yield sw + [M(1), TC(1, 1)] + sv + [C(0), TC(0, 0)]
+        yield [SET(0, 1 - v if v is not None else 0)] + sv + [TC(0, 0), M(3)]   # a later SetContext overrides
+    vws = [(None, None), (0, None), (1, 0), (0, 1)]
+    for (v1, w1), (v2, w2) in itertools.product(vws, repeat=2):
+        for p1, p2 in zip(pipes(v1, w1), pipes(v2, w2)):
+            for first in (R(_vals(0, 3), p1), R(_vals(0, 3), p1, take=2, fin="leak"), R(_vals(0, 3), p1, sraise=1)):
+                for mode in ("source", "sequence", "hoist"):
+                    hist = [first, R(_vals(1, 2), p2, mode=mode), FINALIZE, R(_vals(2, 2), p1, mode=mode),
+                            REPR(1), REPR(2), REPR(2, True), REPR(0)]
+                    yield dict(base, hist=hist)
+    # repr and drop on plain caches after every kind of first run
+    for r1 in _crash_variants([M(1), C(0)], 2):
+        yield {"nc": 1, "fam": "X", "hist": [REPR(0), r1, REPR(0), REPR(0, True), DROP(0), REPR(0), DROP(0, True)]}
 
 
 # ---- MANIFEST texts ------------------------------------------------------------------------
